@@ -51,11 +51,15 @@ def kernel(w, rep, fn, true_name="labels", pred_name="preds"):
                 t0, t1 = ("idx", inner[2][0], pos), ("idx", inner[2][1], pos)
                 if d[1] == ("tuple", (t0, t1)) and conds == (("cmp", "!=", *sorted([t0, t1], key=repr)),):
                     good.append((li, True))
+                elif d[1] == t0 and conds == (("cmp", "!=", *sorted([t0, t1], key=repr)),):
+                    good.append((li, "true-only"))  # the true labels of the misclassified pairs
     rep.fn("KERNEL-zip", fn, "one pass over zip(true labels, predictions)", len(good) == 1,
            f"loop domains: {[show(l.domain)[:100] for l in loops]}")
     if len(good) != 1:
         return None
     li, pre = good[0]
+    if pre == "true-only":
+        return li, ("iter", li.domain, li.lid), None, pre
     if pre:
         # iterating the list of (l, p) pairs: the loop targets are projections of its elements
         return li, ("iterproj", li.domain, li.lid, (0,)), ("iterproj", li.domain, li.lid, (1,)), pre
@@ -112,6 +116,10 @@ def check_accuracy(rep, repo):
     if not k:
         return
     li, T, P, pre = k
+    if P is None:
+        rep.fn("ACC-increments", fi, "two +1 increments per misclassified pair, none otherwise", False,
+               "the counting loop sees the true labels of the misclassified pairs only: false positives cannot be booked")
+        return
     neq = ("cmp", "!=", *sorted([T, P], key=repr))
     want_guard = () if pre else (neq,)
     inc = [e for e in w.events if e.kind == "store" and li.lid in e.loops]
@@ -226,7 +234,7 @@ def check_per_label(rep, repo):
     if not k:
         return
     li, T, P, pre = k
-    neq = ("cmp", "!=", *sorted([T, P], key=repr))
+    neq = ("cmp", "!=", *sorted([T, P], key=repr)) if P is not None else None
     inc = [e for e in w.events if e.kind == "store" and li.lid in e.loops]
     ok = len(inc) == 1 and inc[0].aug == "+" and inc[0].value == ("const", 1) \
         and facts(inc[0].guards) == (() if pre else (neq,)) \
@@ -313,10 +321,20 @@ def check_normalize(rep, repo):
         mean = ("call", ("mod", "numpy.mean"), (a,), (("axis", ("const", 0)),))
         std = ("call", ("mod", "numpy.std"), (a,), (("axis", ("const", 0)),))
         # (the property speaks of non-constant columns: `where(std == 0, <anything>, std)` is std there)
-        safe = [("call", ("mod", "numpy.where"), (mk_cmp("==", std, z), ("const", v), std), ()) for z in (("const", 0), ("const", 0.0))
-                for v in (1, 1.0)]
-        ok = rets[0].value[0] == "bin" and rets[0].value[1] == "/" and rets[0].value[2] == ("bin", "-", a, mean) \
-            and rets[0].value[3] in [std] + safe
+        def spread(d):
+            if d == std:
+                return True
+            if d[0] == "call" and d[1] == ("mod", "numpy.where") and len(d[2]) == 3 and not d[3]:
+                c, x, y = d[2]
+                zero = [("const", 0), ("const", 0.0)]
+                if y == std and c in [mk_cmp("==", std, z) for z in zero]:
+                    return True
+                if x == std and c in [mk_cmp("!=", std, z) for z in zero] + [("cmp", "<", z, std) for z in zero]:
+                    return True
+            return False
+        v = values_of(rets[0].value)
+        a, mean, std = values_of(a), values_of(mean), values_of(std)
+        ok = v[0] == "bin" and v[1] == "/" and v[2] == ("bin", "-", a, mean) and spread(v[3])
     rep.fn("NORM", fi, "normalize = (a - column mean) / column standard deviation", ok,
            f"returns '{show(rets[0].value)[:160] if rets else '?'}'")
 
